@@ -10,6 +10,9 @@ import (
 
 var checks = map[string]*simkit.Check{}
 
+// Detop runs the C20 operation set of a scenario seed under a map seed (seamed builds only).
+var Detop func(seed, mapSeed uint64) string
+
 func add(c *simkit.Check) { checks[c.Property] = c }
 
 // Get returns the check of a property, or nil.
